@@ -61,6 +61,7 @@ def main(argv=None):
     declassified = []
     exempt = []
     once_info = {}
+    init_listed = []
     filtered_out = [0]
     bridges = set()
     assumed = set()
@@ -127,6 +128,14 @@ def main(argv=None):
             fn_records.append({"function": n, "config": cfgname, "mode": rec["mode"], "body": rec.get("body", "go/ssa"),
                                "partitions": rec["partitions"], "paths": rec["paths"], "obligations": len(rec["obligations"]),
                                "trusted": rec["trusted"], "secs": round(time.time() - t1, 2)})
+        if pm.get("init_check") and cfgname == "default":
+            from . import initcheck
+            iobs, irecs, ilisted = initcheck.run(V, a.repo)
+            for ob in iobs:
+                ob.config = cfgname
+            all_obs.extend(iobs)
+            fn_records.extend(irecs)
+            init_listed.extend(ilisted)
         if pm.get("ownership") and cfgname == "default":
             from . import own
             oobs, orecs, once = own.analyse(V)
@@ -256,6 +265,7 @@ def main(argv=None):
             "obligation_filter": pm.get("obligation_filter", []),
             "declassified_sinks": declassified,
             "once_guarded_structs": once_info,
+            "global_invariants_definitional": init_listed,
             "exempt_functions": exempt,
             "obligations_of_these_functions_belonging_to_other_properties": filtered_out[0],
             "configs": configs,
